@@ -131,6 +131,58 @@ class SymSkip:
                           note="token-level comparison of the two function bodies with the skip statement removed")
 
 
+class SymKept:
+    """kept(plane): the condition under which compute_face_integrals_sym feeds a tetrahedron of the plane to the face integral, for the FIRST
+    tetrahedron of the plane (no integral yet). Taken semantically: the body of the tetrahedron loop is run once (tolerant mode) and kept is the
+    path condition at `integral.collect(..)` - whether the loop is a `for` or a `loop { match it.next() .. }`, and however the skip is written."""
+    def __init__(self, fn="ConvexCell::compute_face_integrals_sym"):
+        self.u = Unit("voronoi/convex_cell.rs", fn)
+        collects = lambda n: bool(extract.find_nodes(n, lambda x: x.get("k") == "mcall" and x["m"] == "collect"))
+        loops = [l for l in extract.find_nodes(self.u.fn["body"], lambda n: n.get("k") in ("for", "loop", "while")) if collects(l["body"])]
+        if not loops: raise extract.Undecided("lost anchor: the tetrahedron loop of compute_face_integrals_sym")
+        self.loop = loops[0]
+        self.sha = extract.sha(extract.text_of(self.u.tree, self.loop))
+
+    def __call__(self, left, right_opt, shift_some, normal, dim, mask_arr, tag):
+        hs = Struct("HalfSpace", {"plane": Struct("Plane", {"n": normal, "p": vec(tag + "_p")}), "d": real(tag + "_d"), "errb": real(tag + "_e"),
+                                  "right_idx": right_opt, "shift": Opt(shift_some, vec(tag + "_shiftv"))})
+        planes = SymArr(lambda i: hs)
+        cell = Struct("ConvexCell", {"idx": left, "clipping_planes": planes, "dimensionality": dim, "loc": vec(tag + "_loc")})
+        ctx = symex.Ctx(); ctx.resolver = self.u.resolver(XF)
+        reached = []
+        def collect(interp, env, node, args):
+            reached.append(env.pc); return symex.UNIT
+        ctx.contracts["?::collect"] = collect
+        it = symex.Interp(ctx, self.u.auto_consts(XF)); it.tolerant = True
+        it.note_params(self.u.fn)
+        k = Var(tag + "_plane", "Int")
+        tet = Struct("ConvexCellTet", {"plane_idx": k, "vertices": symex.Arr([vec(tag + "_t%d" % q) for q in range(3)])})
+        none_yet = SymArr(lambda i: Opt(FALSE, None))          # no integral for any plane yet: the first tetrahedron of the plane
+        env = symex.Env(ctx, {"self": cell, "mask": mask_arr, "extra_data": symex.UNIT, "integrals": none_yet}, TRUE, "ConvexCell")
+        ctx.mutable.add("integrals")
+        lp = self.loop
+        if lp["k"] == "for":
+            if lp["pat"].get("k") != "pident": raise extract.Undecided("lost anchor: loop variable of the tetrahedron loop")
+            env.vars[lp["pat"]["name"]] = tet
+            it.exec_block(env, lp["body"])
+        else:
+            # `loop { let tet = match it.next() { Some(tet) => tet, None => break }; .. }`: the statements in front of the loop are run (tolerant)
+            # with self.decompose() as an opaque iterator that yields the tetrahedron, then the loop body once
+            its = symex.IterV("tets", lambda k_: tet); its.always_some = True
+            ctx.contracts["ConvexCell::decompose"] = lambda interp, env_, node, args: its
+            top = [s_ for s_ in self.u.fn["body"]["stmts"] if s_["sp"][0] <= lp["sp"][0] < s_["sp"][1]]
+            pre = [s_ for s_ in self.u.fn["body"]["stmts"] if top and s_["sp"][1] <= top[0]["sp"][0]]
+            if pre: it.exec_block(env, {"k": "block", "stmts": pre, "sp": [pre[0]["sp"][0], pre[-1]["sp"][1]]})
+            env.vars["integrals"] = none_yet
+            it.exec_block(env, lp["body"])
+        kept = Or(*reached) if reached else FALSE
+        calls = extract.find_nodes(lp["body"], lambda x: x.get("k") == "mcall" and x["m"] == "collect")
+        if any(lo <= c_["sp"][0] and c_["sp"][1] <= hi for c_ in calls for lo, hi in ctx.skipped):
+            kept = Or(kept, ctx.fresh("havoc_unseen_collect", "Bool"))
+        ctx.kept_havoc = has_havoc([kept])
+        return kept, ctx
+
+
 def valid_dim(dim, n):
     """Dimensionality::vector_is_valid as specified by the property: unused components are exactly zero."""
     return And(Implies(dim.is_("OneD"), And(Eq(n.c[1], R0), Eq(n.c[2], R0))), Implies(dim.is_("TwoD"), Eq(n.c[2], R0)))
@@ -139,7 +191,7 @@ def valid_dim(dim, n):
 @isolated('face_rule')
 def emit_obligations(prefix, want=("reciprocal", "partial", "sym")):
     E = Emit()
-    S = SymSkip() if "sym" in want else None
+    S = None
     dim, dimc = dim_enum()
     i, j = Var("i", "Int"), Var("j", "Int")
     n = vec("n")
@@ -175,26 +227,37 @@ def emit_obligations(prefix, want=("reciprocal", "partial", "sym")):
                               note="count(i,j) = [sel i and emit(i->j)] + [sel j and emit(j->i)]"))
         obs.append(Obligation(prefix + ".emit.selected_side_is_left_when_exactly_one_selected", A + [valid, sel(mi), Not(sel(mj))], And(eij, Not(And(sel(mj), eji))), E.u.label))
     if "sym" in want:
+        K = SymKept()
         active, aarr = sym_mask("active")
-        sk, c5 = S(i, some(j), FALSE, aarr, "sk")
+        kept, c5 = K(i, some(j), FALSE, n, dim, aarr, "sk")
         if j not in aarr.memo: aarr.memo[j] = aarr.factory(j)
         aj = aarr.memo[j]
-        obs.append(Obligation(prefix + ".sym.skip_iff_unshifted_lower_index_active_neighbour", base + c5.assume, Eq(sk, And(Lt(j, i), aj)), S.u.label))
-        sks, c6 = S(i, some(j), TRUE, aarr, "sks")
-        skb, c7 = S(i, none, FALSE, aarr, "skb")
-        obs.append(Obligation(prefix + ".sym.never_skips_shifted_or_boundary_faces", base + c6.assume + c7.assume, And(Not(sks), Not(skb)), S.u.label))
+        o_ = Obligation(prefix + ".sym.skip_iff_unshifted_lower_index_active_neighbour", base + c5.assume, Eq(kept, And(valid, Not(And(Lt(j, i), aj)))), K.u.label,
+                        note="kept = a tetrahedron of the plane reaches integral.collect; skipped iff invalid dimensionality or an unshifted lower-index active right neighbour")
+        o_.havoc = c5.kept_havoc; obs.append(o_)
+        ks, c6 = K(i, some(j), TRUE, n, dim, aarr, "sks")
+        kb, c7 = K(i, none, FALSE, n, dim, aarr, "skb")
+        o_ = Obligation(prefix + ".sym.never_skips_shifted_or_boundary_faces", base + c6.assume + c7.assume, And(Eq(ks, valid), Eq(kb, valid)), K.u.label)
+        o_.havoc = c6.kept_havoc or c7.kept_havoc; obs.append(o_)
         # one-to-one with the stored face list: for an active cell, kept_sym == emit (mask = Some(active))
         e_act, c8 = E(i, some(j), FALSE, n, dim, Opt(TRUE, aarr), "ea")
-        obs.append(Obligation(prefix + ".sym.kept_faces_are_exactly_the_stored_faces", base + c5.assume + c8.assume,
-                              Eq(And(valid, Not(sk)), e_act), S.u.label,
-                              note="symmetric integral list <-> Voronoi::faces of the same (active) cell, plane by plane"))
-        obs.append(S.structural_obligation(prefix))
+        o_ = Obligation(prefix + ".sym.kept_faces_are_exactly_the_stored_faces", base + c5.assume + c8.assume, Eq(kept, e_act), K.u.label,
+                        note="symmetric integral list <-> Voronoi::faces of the same (active) cell, plane by plane")
+        o_.havoc = c5.kept_havoc or getattr(c8, "emit_havoc", False); obs.append(o_)
+        # the non-symmetric variant feeds every plane of valid dimensionality: symmetric = non-symmetric minus exactly the skipped planes
+        KN = SymKept("ConvexCell::compute_face_integrals")
+        kn, c9 = KN(i, some(j), FALSE, n, dim, aarr, "ns")
+        kns, c10 = KN(i, some(j), TRUE, n, dim, aarr, "nss")
+        knb, c11 = KN(i, none, FALSE, n, dim, aarr, "nsb")
+        o_ = Obligation(prefix + ".sym_variant_is_nonsym_plus_guarded_skip", base + c9.assume + c10.assume + c11.assume, And(Eq(kn, valid), Eq(kns, valid), Eq(knb, valid)), KN.u.label,
+                        note="compute_face_integrals keeps a plane iff its normal is of valid dimensionality; with the three obligations above: sym = non-sym minus the skipped planes")
+        o_.havoc = c9.kept_havoc or c10.kept_havoc or c11.kept_havoc; obs.append(o_)
     hv = any(getattr(c_, "emit_havoc", False) for c_ in (c1, c2))
     for o in obs:
         if ".emit." in o.name or "kept_faces" in o.name: o.havoc = hv
         if ".sym." in o.name and o.replay is None and not o.expect_sat: o.replay = replay_sym
     fns = [{"fn": E.u.label + " / cell-level prefix + the per-plane closure, up to the call of VoronoiFace::init", "slice_sha": E.sha}]
-    if S: fns.append({"fn": S.u.label + " / match arm `=> continue`", "slice_sha": S.sha})
+    if "sym" in want: fns.append({"fn": K.u.label + " / body of the tetrahedron loop, up to integral.collect", "slice_sha": K.sha})
     return obs, fns
 
 
